@@ -135,6 +135,10 @@ def _reader_unit(fname, prefix, with_path, expects_list):
                          or (out.returned and isinstance(out.value, Obj) and out.value.fields.get("_name") is name))
             V.ensure("post/cdxml:supported", z3.Implies(iscd, z3.BoolVal(not out.raised(I, "ValueError"))))
             V.ensure("post/cdxml:name-honoured", z3.Implies(iscd, z3.BoolVal(bool(uses_name) or out.kind == "raise")))
+            if fname == "load_all" and key is None:
+                # like the xyz / mol2 branches: a list (indexable, re-iterable, with a length), one entry per drawn fragment
+                V.ensure("post/cdxml:load_all-returns-a-list-with-one-entry-per-fragment",
+                         z3.Implies(iscd, z3.BoolVal(out.kind == "raise" or (isinstance(out.value, ListV) and len(out.value.items) == 2))))
         unsupported = z3.And(efmt != z3.StringVal("xyz"), efmt != z3.StringVal("mol2"), efmt != z3.StringVal("cdxml"))
         V.ensure("post/unsupported-format:ValueError", z3.Implies(unsupported, z3.BoolVal(out.raised(I, "ValueError") and not tr)))
     return body
